@@ -149,7 +149,7 @@ type c08Game struct {
 func c08Games(r *ev.Run) []c08Game {
 	br := universe.BenchRoots()
 	var gs []c08Game
-	n := ev.Pick(r, 96, 320)
+	n := ev.Pick(r, 192, 320)
 	softs := []int{60, 200, 500, 1500, 4000}
 	for i := 0; i < n; i++ {
 		g := c08Game{start: searchReq{FEN: br[(i*7+int(r.Seed)*3)%len(br)].FEN}, soft: softs[i%len(softs)], depth: 6 + i%3, plies: ev.Pick(r, 30, 60), tt: []int{32000, 1 << 20}[i%2]}
